@@ -191,6 +191,9 @@ func gosymState(name string, full bool) arvados.ContainerState {
 	if full {
 		n = 5
 	}
+	if gosym_Param("lite", 0) == 1 {
+		return arvados.ContainerStateQueued
+	}
 	switch gosym_Choice(name, n) {
 	case 0:
 		return arvados.ContainerStateQueued
